@@ -1020,6 +1020,7 @@ pub fn run_one(w: &Workload, tape: &mut Tape, entropy_seed: u64) -> Result<RunRe
             probes,
             panics: vec![],
             detail: serde_json::json!({"skipped": "perturbed phase too heavy", "work": work}),
+            extra_keys: vec![],
         });
     }
 
@@ -1084,7 +1085,7 @@ pub fn run_one(w: &Workload, tape: &mut Tape, entropy_seed: u64) -> Result<RunRe
         None => serde_json::json!({
             "compiles_compared": pol.compares,
             "programs": w.progs.iter().map(|p| if p.corpus { p.name.clone() } else { p.text.chars().take(160).collect::<String>() }).collect::<Vec<_>>(),
-            "pair_keys": pol.pair_keys,
+
         }),
     };
     Ok(RunReport {
@@ -1100,6 +1101,7 @@ pub fn run_one(w: &Workload, tape: &mut Tape, entropy_seed: u64) -> Result<RunRe
         probes,
         panics: out.panics,
         detail,
+        extra_keys: pol.pair_keys.clone(),
     })
 }
 
